@@ -90,7 +90,7 @@ struct E5 : Engine {
 		J p = J::obj(); p["engine"] = "E5"; p["prop"] = prop; p["fault_seed"] = (unsigned long long)(r.next() >> 8); p["sched_seed"] = (unsigned long long)(r.next() >> 8);
 		static const char *encs[] = {"hmac","hmac-md5","hmac-sha1","hmac-sha224","hmac-sha256","hmac-sha384","hmac-sha512","aes","aes128","aes192","aes256","split-sha1","split-sha256"};
 		if(prop == "C05"){
-			p["enc"] = encs[r.below(13)]; p["key_seed"] = (int)r.below(1000); p["timeout"] = 10 + (int)r.below(3000);
+			p["enc"] = encs[r.below(13)]; p["key_seed"] = (int)r.below(1000); p["key_case"] = (int)r.below(3); p["timeout"] = 10 + (int)r.below(3000);
 			if(r.below(6) == 0){ J uf = J::arr(); int n = 1 + (int)r.below(3); for(int k=0;k<n;k++) uf.push((int)r.below(r.below(2) ? 4 : 30)); p["urandom_fail"] = uf; }   // no entropy: open("/dev/urandom") fails at these calls (descriptor exhaustion)
 			p["strategy"] = (int)r.below(3); p["pct_depth"] = 1 + (int)r.below(3); p["pct_len"] = 20 + (int)r.below(400);
 			if(r.below(4) == 0) p["reuse"] = 1;   // one long-lived session_interface re-targeted with set_cookie_adapter_and_reload(): what an accepted cookie loaded must be gone when the next one is rejected
@@ -148,22 +148,28 @@ struct E5 : Engine {
 					ops.push(o); }
 				q["ops"] = ops; q["tick_inside"] = r.below(8) == 0 ? (int)(1 + r.below(5)) : 0; if(net_faults && r.below(3) == 0) q["net_reset"] = (int)(r.below(3) == 0 ? 0 : 1 + r.below(600)); }
 			reqs.push(q); }
+		if(r.below(12) == 0){   /* a long-lived session kept alive by reading only: its own age is well above session.timeout, the requests that follow change nothing and are spaced inside that age, the clock ends up far beyond login + timeout */
+			reqs = J::arr(); int to = (int)p.geti("timeout"); int age = 2*to + (int)r.below(3*to + 5);
+			{ J q = J::obj(); q["kind"] = "request"; q["b"] = 0; J ops = J::arr(); { J o = J::obj(); o["op"] = "set"; o["k"] = "user"; o["len"] = 8; ops.push(o); } { J o = J::obj(); o["op"] = "age"; o["t"] = age; ops.push(o); } if(r.below(2)){ J o = J::obj(); o["op"] = "expiration"; o["h"] = (int)r.below(3); ops.push(o); } q["ops"] = ops; q["tick_inside"] = 0; reqs.push(q); }
+			int nr = 3 + r.below(6); for(int i=0;i<nr;i++){ { J t = J::obj(); t["kind"] = "tick"; t["s"] = 1 + (int)r.below((unsigned)std::max(2,(int)(age*0.7))); reqs.push(t); } J q = J::obj(); q["kind"] = "request"; q["b"] = 0; q["ops"] = J::arr(); q["tick_inside"] = 0; reqs.push(q); } }
 		p["reqs"] = reqs;
 		return p;
 	}
 
 	static std::string hexkey(int seed,int bytes){ std::string k; simk::Rng r; r.seed(777 + seed); static const char *hx = "0123456789abcdef"; for(int i=0;i<bytes*2;i++) k += hx[r.below(16)]; return k; }
 	static std::string norm_enc(const std::string &e){ static const char *known[] = {"hmac","hmac-md5","hmac-sha1","hmac-sha224","hmac-sha256","hmac-sha384","hmac-sha512","aes","aes128","aes192","aes256","split-sha1","split-sha256"}; for(auto k:known) if(e == k) return e; return "hmac"; }   // anything else is reached only by minimisation
+	static int &key_case(){ static int c = 0; return c; }   /* how the hexadecimal key text is spelt in the configuration: 0 lower case, 1 upper case, 2 mixed - the key material is the same */
+	static std::string spell(std::string h){ int c = key_case(); for(size_t i=0;i<h.size();i++) if(h[i] >= 'a' && h[i] <= 'f' && (c == 1 || (c == 2 && (i * 7 + h.size()) % 3 == 0))) h[i] = (char)(h[i] - 'a' + 'A'); return h; }
 	static void configure_enc(cppcms::json::value &v,const std::string &enc_in,int key_seed){
 		std::string enc = norm_enc(enc_in);
-		if(enc.compare(0,5,"split") == 0){ v["session"]["client"]["hmac"] = enc.substr(6); v["session"]["client"]["hmac_key"] = hexkey(key_seed,24); v["session"]["client"]["cbc"] = "aes"; v["session"]["client"]["cbc_key"] = hexkey(key_seed+1,16); }
-		else { v["session"]["client"]["encryptor"] = enc; int kb = enc.compare(0,3,"aes") == 0 ? (enc == "aes192" ? 24 : enc == "aes256" ? 32 : 16) : 20; v["session"]["client"]["key"] = hexkey(key_seed,kb); }
+		if(enc.compare(0,5,"split") == 0){ v["session"]["client"]["hmac"] = enc.substr(6); v["session"]["client"]["hmac_key"] = spell(hexkey(key_seed,24)); v["session"]["client"]["cbc"] = "aes"; v["session"]["client"]["cbc_key"] = spell(hexkey(key_seed+1,16)); }
+		else { v["session"]["client"]["encryptor"] = enc; int kb = enc.compare(0,3,"aes") == 0 ? (enc == "aes192" ? 24 : enc == "aes256" ? 32 : 16) : 20; v["session"]["client"]["key"] = spell(hexkey(key_seed,kb)); }
 	}
 	static cppcms::json::value settings(const J &plan,const std::string &location){
 		cppcms::json::value v; v["session"]["location"] = location; v["session"]["expire"] = plan.gets("expire","fixed") == "renew" ? "renew" : plan.gets("expire","fixed") == "browser" ? "browser" : "fixed";
 		v["session"]["timeout"] = (int)std::max<int64_t>(1,std::min<int64_t>(plan.geti("timeout",100),100000000)); v["session"]["cookies"]["prefix"] = PREFIX; v["session"]["client_size_limit"] = (int)std::max<int64_t>(0,plan.geti("client_size_limit",2048));
 		v["session"]["cookies"]["remove_unknown_cookies"] = (bool)plan.geti("remove_unknown",1); v["session"]["gc"] = 0;
-		configure_enc(v,plan.gets("enc","hmac"),(int)plan.geti("key_seed")); v["session"]["server"]["storage"] = "memory";
+		key_case() = (int)(((plan.geti("key_case") % 3) + 3) % 3); configure_enc(v,plan.gets("enc","hmac"),(int)plan.geti("key_seed")); v["session"]["server"]["storage"] = "memory";
 		return v;
 	}
 	static std::string my_b64url_decode(const std::string &s,bool &ok){ std::string r; uint32_t acc = 0; int bits = 0; ok = true; for(char c:s){ int v = c >= 'A' && c <= 'Z' ? c-'A' : c >= 'a' && c <= 'z' ? c-'a'+26 : c >= '0' && c <= '9' ? c-'0'+52 : c == '-' ? 62 : c == '_' ? 63 : -1; if(v < 0){ ok = false; return r; } acc = (acc << 6) | v; bits += 6; if(bits >= 8){ bits -= 8; r += (char)((acc >> bits) & 0xff); } } return r; }
